@@ -117,6 +117,21 @@ func runC08(cx *Ctx, r *Report) {
 	// ------------------------------------------------ callback discipline
 	cx.c08Callback(r)
 	cx.lostUpdateRule(r, []string{"service", "oracle", "random"}, 40)
+	// every entry of the three service work lists is taken off its list by the body that
+	// processes it, on every path (rule shared with C13): a context whose entry stays behind
+	// at a past height is never scheduled again and issues no further batch
+	{
+		walks := map[string]*c13Walk{}
+		cx.c13DequeueRule(r, func(e Entry) *c13Walk {
+			k := entryKey(&e)
+			if walks[k] == nil {
+				ee := e
+				walks[k] = cx.c13WalkEntry(&ee, r)
+			}
+			return walks[k]
+		}, func(q c13Queue) bool { return q.mod == "service" })
+		r.requireCount("dequeue", 3)
+	}
 	// the expired-batch body schedules the next batch only for a repeated context that is
 	// below its total (or unlimited)
 	{
@@ -155,31 +170,7 @@ func runC08(cx *Ctx, r *Report) {
 		}
 	}
 	r.requireCount("reschedule-condition", 1)
-	// who may declare a batch completed: only the batch-completion function and the
-	// automatic pause; anything else (e.g. a kill) that sets BatchState := COMPLETED makes
-	// the expiry handler skip the slash/refund of the batch's unanswered requests
-	{
-		n := 0
-		kc := keyCounter{}
-		for _, name := range sortedKeys(per) {
-			for _, x := range per[name] {
-				if x.ev.Kind != "assign:RequestContext.BatchState" || x.ev.Args[0].LooseString() != "1" {
-					continue
-				}
-				n++
-				okW := false
-				for f := x.ev.Fr; f != nil; f = f.Parent {
-					if nm := f.Fn.Name(); (nm == "CompleteBatch" || nm == "OnRequestContextPaused") && moduleOf(funcPkgPath(f.Fn)) == "service" {
-						okW = true
-					}
-				}
-				r.check(okW, "batch-completed-writers", kc.next(name), x.ev.Pos(cx), "BatchState := COMPLETED is written by the batch-completion function or the automatic pause", "BatchState is set to COMPLETED in "+shortFn(x.ev.Fr.Fn)+" (reached from "+name+"), outside batch completion and automatic pause: the expired-batch handler then skips the slash and refund of the batch's unanswered requests, which end with neither outcome")
-			}
-		}
-		if n < 3 {
-			r.toolErr("only %d BatchState := COMPLETED sites found (≥3 confirmed)", n)
-		}
-	}
+	cx.batchCompletedWriters(r, per)
 	{
 		walks := map[string]*c13Walk{}
 		cx.singleEntryRule(r, func(e Entry) *c13Walk {
@@ -385,6 +376,35 @@ func (cx *Ctx) c08Callback(r *Report) {
 				where = "end blocker"
 			}
 			r.check(ok, "completion-guard", where, cx.P.Pos(c.Site.Pos()), "completion on the "+where+" is guarded (BatchState ≠ COMPLETED / responses == requests)", "completion on the "+where+" is not guarded by the batch-state or response-count test: a batch could complete (and call back) twice")
+		}
+	}
+}
+
+// batchCompletedWriters (shared by C08 and C07): who may declare a batch completed.
+func (cx *Ctx) batchCompletedWriters(r *Report, per map[string][]hev) {
+	// who may declare a batch completed: only the batch-completion function and the
+	// automatic pause; anything else (e.g. a kill) that sets BatchState := COMPLETED makes
+	// the expiry handler skip the slash/refund of the batch's unanswered requests
+	{
+		n := 0
+		kc := keyCounter{}
+		for _, name := range sortedKeys(per) {
+			for _, x := range per[name] {
+				if x.ev.Kind != "assign:RequestContext.BatchState" || x.ev.Args[0].LooseString() != "1" {
+					continue
+				}
+				n++
+				okW := false
+				for f := x.ev.Fr; f != nil; f = f.Parent {
+					if nm := f.Fn.Name(); (nm == "CompleteBatch" || nm == "OnRequestContextPaused") && moduleOf(funcPkgPath(f.Fn)) == "service" {
+						okW = true
+					}
+				}
+				r.check(okW, "batch-completed-writers", kc.next(name), x.ev.Pos(cx), "BatchState := COMPLETED is written by the batch-completion function or the automatic pause", "BatchState is set to COMPLETED in "+shortFn(x.ev.Fr.Fn)+" (reached from "+name+"), outside batch completion and automatic pause: the expired-batch handler then skips the slash and refund of the batch's unanswered requests, which end with neither outcome")
+			}
+		}
+		if n < 3 {
+			r.toolErr("only %d BatchState := COMPLETED sites found (≥3 confirmed)", n)
 		}
 	}
 }
